@@ -29,6 +29,7 @@ EXPLANATION = (
     "every clearing store / module drop with a removal. Every subscript of a per-application dictionary uses a key derived from "
     "_get_app_id(subroutine_id), the subroutine's own app id, or the function's app_id parameter (checked at the call sites). "
     "Allocation is under `slot is None` and a dominating bound check; free raises on an empty slot."
+    ' Mark-then-map: from a statement that marks a physical address in use every path to a return or raise maps it or hands it on; no state effect precedes an explicit raise/assert in an executor method. C13.Z: no truthiness test on an int-typed value.'
 )
 LEVEL_TEXT = (
     "Static analysis, partial: lifecycle pairing, used-set coherence, app-keyed indexing and allocation guards are decided for every "
